@@ -960,7 +960,17 @@ func (e *Engine) initIntrinsics() {
 	}
 
 	I["github.com/libp2p/go-libp2p/core/record.ConsumeEnvelope"] = func(e *Engine, a []Value, pos token.Pos, fn *ssa.Function) Value {
-		// signed envelopes are cryptography: the harnesses only ever supply bytes that do not verify
+		// signed envelopes are cryptography (uninterpreted). When the harness library of the repo package provides a Go
+		// MODEL of the outcome classes (vpModel_ConsumeEnvelope: tagged test envelopes -> valid peer record for a stated
+		// peer / valid envelope of another record type / invalid), that model is evaluated symbolically in its place; the
+		// same tagged inputs are realised natively as really signed envelopes (vpEnvelope). Otherwise every envelope is
+		// invalid.
+		if pk := e.prog.ImportedPackage(e.repoPkgPrefix); pk != nil {
+			if m := pk.Func("vpModel_ConsumeEnvelope"); m != nil {
+				e.stubs["record.ConsumeEnvelope -> vpModel_ConsumeEnvelope"]++
+				return e.CallFunction(m, a, nil)
+			}
+		}
 		res := fn.Signature.Results()
 		return &TupleV{[]Value{e.zero(res.At(0).Type()), e.zero(res.At(1).Type()), e.newErr("invalid envelope")}}
 	}
